@@ -38,6 +38,7 @@ ImplAct(s) ==
   CASE s.a \in {"dial", "probe"} -> UDial(s.p)
     [] s.a = "hdial" -> HDial(s.p)
     [] s.a = "dial_addr" -> UDialAddr(s.p, s.addr)
+    [] s.a = "hdial_addr" -> HDialAddr(s.p, s.addr)
     [] s.a = "add_known" -> AddKnown(s.p, s.addr)
     [] s.a = "dial_fail" -> TDialFail(s.c)
     [] s.a = "established" -> IF "lost" \in DOMAIN s /\ s.lost THEN TEstablishedLost(s.c) ELSE TEstablished(s.c)
